@@ -418,6 +418,14 @@ fn run(ctx: &Ctx, env: &Env) -> Stats {
                 }
             }
         }
+        // single values at the top of the 64-bit range (every total still fits 64 bits), every parameter set
+        for params in 0..=4u8 {
+            for v in [u64::MAX - 1, u64::MAX - 2, u64::MAX - 255, u64::MAX - 511, u64::MAX - 512, u64::MAX - 513, u64::MAX - 1024, 1 << 63, (1 << 63) - 1, (1 << 63) + 1] {
+                for via in [Via::Update, Via::UpdateMany] {
+                    part.check(&Case::Seq { items: vec![(v, 1)], assign: vec![0], parts: 1, via, combine: Combine::Add, small_params: false, params, scale: 0 }, &f);
+                }
+            }
+        }
         // multiplicities of 2^32 and beyond (update_many only), small values, every parameter set
         for params in 0..=4u8 {
             for scale in [31u8, 32, 33, 40] {
